@@ -49,7 +49,7 @@ Notation pass' := (pass o tok err rules prods).
 Notation derive' := (derive o tok err rules prods).
 Notation rt0 := (phase1_types o rules acts).
 Notation source_rel := (source_rel rules prods).
-Notation fty := (fty tok).
+Notation fty := (fty tok err).
 Notation value := (value o).
 Notation settled := (settled o tok err rules prods).
 Notation binding_ok_with := (binding_ok_with o tok err rules prods ms).
